@@ -120,7 +120,21 @@ func c11Admit(cfg c11Cfg, q c11Req, ownAsset string, openFee uint64, chanExists 
 	return len(why) == 0, why
 }
 
-func runC11World(r *Run, seed int64, nReq int) {
+// c11Pin fixes parts of a world for the systematic boundary grids (everything else stays generated).
+type c11Pin struct {
+	cfg     func(c *c11Cfg)
+	typ     string
+	chain   string
+	amount  uint64
+	network string // request network for Bitcoin requests ("" = the node's own)
+	limit   int64
+}
+
+func runC11World(r *Run, seed int64, nReq int, pins ...*c11Pin) {
+	var pin *c11Pin
+	if len(pins) > 0 {
+		pin = pins[0]
+	}
 	rng := mrand.New(mrand.NewSource(seed))
 	w := sim.NewWorld(seed)
 	defer w.Close()
@@ -135,6 +149,9 @@ func runC11World(r *Run, seed int64, nReq int) {
 		chanLocal: pick(rng, uint64(0), 100_000_000, 1_000_000_000, 5_000_000_000), chanRemote: pick(rng, uint64(0), 100_000_000, 1_000_000_000, 5_000_000_000),
 		// the networks bitcoind can report; the two testnets are different chains whose names share a prefix
 		ownNet: pick(rng, sim.BtcParams.Name, sim.BtcParams.Name, sim.BtcParams.Name, "testnet3", "testnet4", "mainnet", "signet"),
+	}
+	if pin != nil && pin.cfg != nil {
+		pin.cfg(&cfg)
 	}
 	mal := w.AddPeer("mallory")
 	nc := sim.DefaultNodeConfig()
@@ -167,6 +184,9 @@ func runC11World(r *Run, seed int64, nReq int) {
 	for k := 0; k < nReq; k++ {
 		typ := pick(rng, "in", "out")
 		chainPick := pick(rng, "btc", "lbtc")
+		if pin != nil {
+			typ, chainPick = pin.typ, pin.chain
+		}
 		// premium rate configuration for this requester
 		op := premium.SwapIn
 		if typ == "out" {
@@ -192,6 +212,23 @@ func runC11World(r *Run, seed int64, nReq int) {
 				rate = dr.PremiumRatePPM().Value()
 			}
 		}
+		// the opposite direction of the same asset gets another rate (a premium computed or limit-checked with the
+		// wrong direction's rate must show): zero, 100 %, or the negated one
+		if cfg.rateKind != "default" {
+			otherOp := premium.SwapOut
+			if op == premium.SwapOut {
+				otherOp = premium.SwapIn
+			}
+			other := pick(rng, int64(0), 0, 1_000_000, -rate)
+			if pr, err := premium.NewPremiumRate(asst, otherOp, premium.NewPPM(other)); err == nil {
+				if cfg.rateKind == "peer" {
+					ps.SetRate(context.Background(), mal.ID, pr)
+				} else {
+					ps.DeleteRate(context.Background(), mal.ID, asst, otherOp)
+					ps.SetDefaultRate(context.Background(), pr)
+				}
+			}
+		}
 		scid := fmt.Sprintf("%d%s1%s%d", 100+k, pick(rng, "x", ":"), pick(rng, "x", ":"), k)
 		if strings.Contains(scid, "x") && strings.Contains(scid, ":") {
 			scid = strings.ReplaceAll(scid, ":", "x")
@@ -211,7 +248,14 @@ func runC11World(r *Run, seed int64, nReq int) {
 		q.limit = pick(rng, int64(0), 1, -1, 100, 2000, 10_000, 1_000_000, 1<<62, -(1 << 62))
 		// one deviation in roughly half of the requests
 		dev := rng.Intn(24)
-		if k == 1 {
+		if pin != nil {
+			dev = 99 // no generated deviation: the pinned values are the case
+			q.amount, q.limit = pin.amount, pin.limit
+			if pin.network != "" && chainPick == "btc" {
+				q.network = pin.network
+				q.desc = append(q.desc, "pinned-network")
+			}
+		} else if k == 1 {
 			dev = 1 // the second request of every world carries an extreme amount
 		}
 		switch dev {
@@ -343,6 +387,46 @@ func TestC11(t *testing.T) {
 	r.Assumptions = []string{"channel balances and on-chain balances are what the simulated Lightning node / wallet report", "opening-fee estimate taken from the node's own wallet object"}
 	worlds := r.N(150, 6000)
 	parallelDo(worlds, 12, func(i int) { runC11World(r, r.Seed*31337+int64(i)+1, 8) })
+	// systematic boundary grids (the same for every seed), everything else permissive: (1) swap-out responder whose
+	// on-chain balance is amount + d for d around 0 and around the opening fee; (2) every (own network, requested
+	// network) pair of the names bitcoind reports
+	{
+		permissive := func(c *c11Cfg) {
+			c.allowNew, c.acceptAll, c.allowlisted, c.suspicious = true, true, true, false
+			c.minMsat, c.btcOn, c.lqOn = 0, true, true
+			c.btcBal, c.lbtcBal = 1<<40, 1<<40
+			c.ratePPM, c.rateKind = 0, "peer"
+			c.chanLocal, c.chanRemote = 5_000_000_000, 5_000_000_000
+			c.ownNet = sim.BtcParams.Name
+		}
+		var pins []*c11Pin
+		const amt = 200_000
+		for _, ch := range []string{"btc", "lbtc"} {
+			for _, d := range []int64{-1, 0, 1, 87, 100, 200, 299, 300, 301, 349, 350, 351, 400, 699, 700, 701, 1000, 1399, 1400, 1401, 5000} {
+				ch, d := ch, d
+				pins = append(pins, &c11Pin{typ: "out", chain: ch, amount: amt, limit: 1 << 40, cfg: func(c *c11Cfg) {
+					permissive(c)
+					if ch == "btc" {
+						c.btcBal = uint64(amt + d)
+					} else {
+						c.lbtcBal = uint64(amt + d)
+					}
+				}})
+			}
+		}
+		nets := []string{"mainnet", "testnet", "testnet3", "testnet4", "signet", "regtest"}
+		for i, own := range []string{"testnet3", "testnet4", "regtest", "mainnet", "signet"} {
+			for j, req := range nets {
+				own := own
+				pins = append(pins, &c11Pin{typ: []string{"in", "out"}[(i+j)%2], chain: "btc", amount: amt, limit: 1 << 40, network: req, cfg: func(c *c11Cfg) {
+					permissive(c)
+					c.ownNet = own
+				}})
+			}
+		}
+		parallelDo(len(pins), 12, func(i int) { runC11World(r, 77_000+int64(i), 1, pins[i]) })
+		r.Extra["boundary_grid_worlds"] = len(pins)
+	}
 	ad := 0
 	for k, v := range r.distinct {
 		if strings.Contains(k, "/admit/agreement=true") {
